@@ -12,7 +12,7 @@ fn cases(ob: &str) -> Vec<String> {
     // exponent forms without a fraction (ryu emits these), fractions, signs
     for l in ["1e21", "1E5", "5e-324", "1e0", "12e3", "-3e2", "+7E-2", "1.5e3", "0.25", "10.0", "1e22", "123456789012345678901e2",
               "1.7976931348623157e308", "2.2250738585072014e-308", "4.9e-324", "1e-7", "9007199254740993.0", "0.1", "1e23", "0.99999999999999999999", "1.8446744073709551616", "3.14159265358979323846264338327950288", "6.0221407600000000000000e23", "0.000000000000000000000000000001",
-              "1e+21", "1E+5", "1.5e+10", "6.022140e+23", "#d7e+2", "-2.5E+3", "1e-0", "1e+0", "#d1.5", "#d-12e1", "00012.500e01", "12345678901234567890123e+2", "1e+308", "2e-308", "5E-1", "0e0", "-0.0", "0e+5"] {
+              "1e+21", "1E+5", "1.5e+10", "6.022140e+23", "#d7e+2", "-2.5E+3", "1e-0", "1e+0", "#d1.5", "#d-12e1", "00012.500e01", "12345678901234567890123e+2", "1e+308", "2e-308", "5E-1", "0e0", "-0.0", "0e+5", "1e-99999999999", "-1e-99999999999", "0e99999999999", "-0e99999999999", "0.0e-4294967296", "#d+42", "#d-42", "#d-9223372036854775808", "#d+18446744073709551615"] {
         out.push(format!("dec:{}", l));
     }
     // integers around the 64-bit boundaries in all radixes
@@ -38,7 +38,7 @@ fn cases(ob: &str) -> Vec<String> {
     out.push(format!("huge:-#x{}", "F".repeat(260)));
     out.push(format!("huge:#b1{}", "0".repeat(1024)));
     out.push(format!("huge:#o1{}", "0".repeat(342)));
-    for l in ["1e309", "1e400", "-1e309", "2.5e310", "17976931348623157e293", "1e99999", "2e308", "-1.8e308", "17976931348623159e292", "1.8e+308", "#d2e308"] { out.push(format!("huge:{}", l)); }
+    for l in ["1e309", "1e400", "-1e309", "2.5e310", "17976931348623157e293", "1e99999", "2e308", "-1.8e308", "17976931348623159e292", "1.8e+308", "#d2e308", "-1e99999999999", "1e99999999999", "-2.5e+4294967296", "#d-1e2147483648"] { out.push(format!("huge:{}", l)); }
     out.push(format!("huge:1{}", "0".repeat(309)));
     out.push("printer:".into());
     if ob.contains("parse_long_integer") { out.sort_by_key(|c| !c.starts_with("long")); }
